@@ -14,29 +14,38 @@ package boltz
 //@   nosafety
 //@   modifies *
 
+//@ funcparam (*DbImpl).Batch.fn(fctx)
+//@   modifies *, ocCnt, ocFn, ocRecv, cxN, cxWho, cxPhase, cxCtx, cxPersist, edDone, pdN, pdWho, pdId, acN, idlCnt, idlArg, lsCnt, lsArg, ecsLoaded, ecsParent
 //@ func (*DbImpl).Batch
-//@   props C07
+//@   props C07 C16
 //@   errflow
 //@   nosafety
-//@   modifies *
+//@   modifies *, ctxTx, ocCnt, ocFn, ocRecv, cxN, cxWho, cxPhase, cxCtx, cxPersist, edDone, pdN, pdWho, pdId, acN, idlCnt, idlArg, lsCnt, lsArg, ecsLoaded, ecsParent
+//@   callpre[a-given-context-is-used-as-it-is] Batch@1: ctx != nil ==> cellof(ctx) == ctx
 
 //@ func (*DbImpl).Batch$1
-//@   props C07
+//@   props C07 C16
 //@   errflow
 //@   nosafety
-//@   modifies *, ctxTx, ocCnt, ocFn, ocRecv
+//@   modifies *, ctxTx, ocCnt, ocFn, ocRecv, cxN, cxWho, cxPhase, cxCtx, cxPersist, edDone, pdN, pdWho, pdId, acN, idlCnt, idlArg, lsCnt, lsArg, ecsLoaded, ecsParent
+//@   callpre[the-caller's-function-runs-bound-to-this-transaction] fn@1: ctxTx[arg0] == ref(tx)
 
+// the caller's function runs with the caller's context (a fresh one only when none was given), bound to this transaction
+//@ funcparam (*DbImpl).Update.fn(fctx)
+//@   modifies *, ocCnt, ocFn, ocRecv, cxN, cxWho, cxPhase, cxCtx, cxPersist, edDone, pdN, pdWho, pdId, acN, idlCnt, idlArg, lsCnt, lsArg, ecsLoaded, ecsParent
 //@ func (*DbImpl).Update
-//@   props C07
+//@   props C07 C16
 //@   errflow
 //@   nosafety
-//@   modifies *
+//@   modifies *, ctxTx, ocCnt, ocFn, ocRecv, cxN, cxWho, cxPhase, cxCtx, cxPersist, edDone, pdN, pdWho, pdId, acN, idlCnt, idlArg, lsCnt, lsArg, ecsLoaded, ecsParent
+//@   callpre[a-given-context-is-used-as-it-is] Update@1: ctx != nil ==> cellof(ctx) == ctx
 
 //@ func (*DbImpl).Update$1
-//@   props C07 C08
+//@   props C07 C08 C16
 //@   errflow
 //@   nosafety
-//@   modifies *, ctxTx, ocCnt, ocFn, ocRecv
+//@   modifies *, ctxTx, ocCnt, ocFn, ocRecv, cxN, cxWho, cxPhase, cxCtx, cxPersist, edDone, pdN, pdWho, pdId, acN, idlCnt, idlArg, lsCnt, lsArg, ecsLoaded, ecsParent
+//@   callpre[the-caller's-function-runs-bound-to-this-transaction] fn@1: ctxTx[arg0] == ref(tx)
 //@   lensures[tx-complete-listeners-registered-once-last] result == nil && txCompleteListeners != nil ==> sel(ocFn[tx], ocCnt[tx] - 1) == fnid("(*github.com/openziti/storage/boltz.DbImpl).Update$1$1")
 //@   lensures[no-listeners-no-registration] result == nil && txCompleteListeners == nil ==> true
 
